@@ -1,5 +1,5 @@
 import Comdex.Base.Line
-import Comdex.Model.AmmMatch
+import Comdex.Model.AmmTick
 /-! Driver for the batch-matching model (property C05).
 
 Lines (tab separated, after the sequence number):
@@ -13,6 +13,14 @@ Lines (tab separated, after the sequence number):
         real SortOrders(orders) ; DistributeOrderAmountToOrders(orders, amt, p)
   amm.op fill <id> <amt> <p> <matchable|-> <ok|panic> <qcd|-> <results>
         real MatchableAmount(order, p) ; FillOrder(order, amt, p)
+  amm.op first <prec> <price|none> <ok|nomatch|panic> <qcd|-> <results>
+        real NewOrderBook(orders) ; FindMatchPrice(ob.MakeView(), prec) ; MatchAtSinglePrice(price)   (keeper's first batch)
+  amm.fmp <prec> <price|none>                       real FindMatchPrice(NewOrderBook(orders).MakeView(), prec)
+  amm.fmpx <prec> <price|none>                      the same at a precision the order prices are not ticks of (compared, not monitored)
+  amm.view <price> <hb|none> <ls|none> <buyOver> <sellUnder>
+        real MakeView: HighestBuyPrice, LowestSellPrice, BuyAmountOver(price,true), SellAmountUnder(price,true)
+  amm.tk <fn> <prec> <arg> <result>                 tick.go primitives: down (PriceToDownTick), up (UpTick), ptup (PriceToUpTick),
+        dn (DownTick), toidx (TickToIndex), fromidx (TickFromIndex), round (RoundPrice), hi (HighestTick), lo (LowestTick)
 results := `id:open:paid:received:matched` joined by `;`, every order of the sequence, ascending id.
 Prices are Dec raws.  After every op the model continues from the REAL resulting order states.
 
@@ -166,6 +174,66 @@ def handle (st : St) (seq : String) (f : List String) : St × List String :=
         | some (o', q) =>
           finish st seq s!"{mm}\tok\t{q}" (some (project st.orders [o'])) s!"{mat}\t{outcome}\t{qcd}" outcome qcd res (fillOp := true)
     | _, _, _ => (st, [s!"BAD\t{seq}\tfill"])
+  | ["amm.op", "first", prec, fmp, outcome, qcd, res] =>
+    match parseNat? prec with
+    | none => (st, [s!"BAD\t{seq}\tfirst"])
+    | some prec =>
+      let b := newBook st.orders
+      let mf := match findMatchPrice (makeView b) prec with | none => "none" | some a => toString a
+      -- monitor: a found price is positive, on the tick grid and between the lowest sell and the highest buy price
+      let pm := match findMatchPrice (makeView b) prec with
+        | none => []
+        | some a => if monMatchPrice (makeView b) prec a then [] else [s!"MON\t{seq}\tmatch_price_in_spread"]
+      let (st', out) := match matchFirstBatch b prec with
+        | .panic => finish st seq s!"{mf}\tpanic\t-" none s!"{fmp}\t{outcome}\t{qcd}" outcome qcd res
+        | .noMatch => finish st seq s!"{mf}\tnomatch\t-" none s!"{fmp}\t{outcome}\t{qcd}" outcome qcd res
+        | .ok b' q => finish st seq s!"{mf}\tok\t{q}" (some (project st.orders b'.orders)) s!"{fmp}\t{outcome}\t{qcd}" outcome qcd res
+      (st', out ++ pm)
+  | ["amm.fmp", prec, r] =>
+    match parseNat? prec with
+    | none => (st, [s!"BAD\t{seq}\tfmp"])
+    | some prec =>
+      let v := makeView (newBook st.orders)
+      let m := match findMatchPrice v prec with | none => "none" | some a => toString a
+      let d := if m = r then [] else [s!"DIFF\t{seq}\tmodel={m}\timpl={r}"]
+      -- the monitor is evaluated on the REAL answer
+      let mon := match parseInt? r with
+        | some a => if monMatchPrice v prec a then [] else [s!"MON\t{seq}\tmatch_price_in_spread"]
+        | none => if r = "none" && monCrossing v then [s!"MON\t{seq}\tmatch_price_found_iff_crossing"] else []
+      (st, d ++ mon)
+  | ["amm.fmpx", prec, r] =>
+    match parseNat? prec with
+    | none => (st, [s!"BAD\t{seq}\tfmpx"])
+    | some prec =>
+      let m := match findMatchPrice (makeView (newBook st.orders)) prec with | none => "none" | some a => toString a
+      (st, if m = r then [] else [s!"DIFF\t{seq}\tmodel={m}\timpl={r}"])
+  | ["amm.view", price, hb, ls, bo, su] =>
+    match parseInt? price with
+    | none => (st, [s!"BAD\t{seq}\tview"])
+    | some price =>
+      let v := makeView (newBook st.orders)
+      let sh := fun (o : Option Int) => match o with | none => "none" | some a => toString a
+      let m := s!"{sh v.highestBuyPrice}\t{sh v.lowestSellPrice}\t{v.buyAmountOver price}\t{v.sellAmountUnder price}"
+      let r := s!"{hb}\t{ls}\t{bo}\t{su}"
+      (st, if m = r then [] else [s!"DIFF\t{seq}\tmodel={m}\timpl={r}"])
+  | ["amm.tk", fn, prec, arg, r] =>
+    match parseNat? prec, parseInt? arg with
+    | some prec, some a =>
+      let m : Option Int :=
+        if fn = "down" then some (priceToDownTick a prec)
+        else if fn = "up" then some (upTick a prec)
+        else if fn = "ptup" then some (priceToUpTick a prec)
+        else if fn = "dn" then some (downTick a prec)
+        else if fn = "toidx" then some (tickToIndex a prec)
+        else if fn = "fromidx" then some (tickFromIndex a prec)
+        else if fn = "round" then some (roundPrice a prec)
+        else if fn = "hi" then some (highestTick prec)
+        else if fn = "lo" then some (lowestTick prec)
+        else none
+      match m with
+      | none => (st, [s!"BAD\t{seq}\ttk fn {fn}"])
+      | some m => (st, if toString m = r then [] else [s!"DIFF\t{seq}\ttk {fn} {prec} {arg}\tmodel={m}\timpl={r}"])
+    | _, _ => (st, [s!"BAD\t{seq}\ttk"])
   | _ => (st, [s!"BAD\t{seq}\tunknown amm line"])
 
 end Comdex.Drv.AmmMatch
